@@ -2,7 +2,8 @@
    for every clock, every SDD oracle, every configuration. *)
 Require Import List NArith QArith Bool Lia Lqa Permutation.
 Require Import KV.Hybrid.Lineage KV.Hybrid.Spec KV.Hybrid.Model KV.Hybrid.SearchSpec
-               KV.Hybrid.LineageProofs KV.Hybrid.BuildProofs KV.Hybrid.ProbProofs KV.Hybrid.SearchProofs.
+               KV.Hybrid.LineageProofs KV.Hybrid.BuildProofs KV.Hybrid.ProbProofs KV.Hybrid.SearchProofs
+               KV.Hybrid.ExclusiveProofs.
 Import ListNotations.
 Open Scope Q_scope.
 
@@ -370,8 +371,12 @@ Lemma seeds_valid_split : forall sl, seeds_valid sl -> NoDup (ids sl) /\ probs_o
 Proof. intros sl [H1 H2]. split; assumption. Qed.
 
 Lemma exact_probability_indep : forall sl a root,
+  wf a = true -> NoDup (ids sl) ->
   has_exclusive sl a root = false -> exact_probability sl a root == Prob_node sl a root.
-Proof. intros sl a root H. unfold exact_probability. rewrite H. apply Qred_correct. Qed.
+Proof.
+  intros sl a root Hwf Hnd H. unfold exact_probability. rewrite Qred_correct.
+  apply plan_wmc_indep; assumption.
+Qed.
 
 Lemma evaluate_sound : forall a sl root,
   wf a = true -> seeds_valid sl -> has_exclusive sl a root = false ->
@@ -403,24 +408,41 @@ Proof.
   unfold Prob_node. repeat split; auto.
 Qed.
 
-(* exclusive groups: the top-k path is never taken; the result is the SDD's answer or NeedsExact without bounds *)
+(* a lineage that mentions a choice of an exclusive group: the top-k path is never taken; the result is the
+   weighted count of the compiled plan, or NeedsExact without bounds *)
 Lemma evaluate_exclusive : forall a sl root kf fuel c clk orc,
   has_exclusive sl a root = true ->
   (exists d m, evaluate kf fuel c a sl root clk orc
-               = RExact (qclamp (Qred (ProbX_node sl a root)) 0 1) d ExactSdd m)
+               = RExact (qclamp (exact_probability sl a root) 0 1) d ExactSdd m
+               /\ d = decide c (qclamp (exact_probability sl a root) 0 1))
   \/ (exists rs m, evaluate kf fuel c a sl root clk orc = RNeedsExact None None rs m).
 Proof.
-  intros a sl root kf fuel c clk orc Hx. unfold evaluate, evaluate_with, exact_probability. rewrite Hx.
+  intros a sl root kf fuel c clk orc Hx. unfold evaluate, evaluate_with. rewrite Hx.
   destruct (negb (validate c)); [right; eauto|].
   rewrite andb_false_r.
   destruct (compile_exact _ sl a root (sdd_budget c) clk (1 + 2)%N (orc 2%N 0%N)) as [cr t'] eqn:Hc.
   destruct cr as [p|rs].
-  - left. assert (p = Qred (ProbX_node sl a root)).
+  - left. assert (p = exact_probability sl a root).
     { unfold compile_exact in Hc. destruct (negb (all_known sl a root)); [discriminate|].
       destruct (sdd_run _ clk _ _) as [hit t1]. destruct hit; [discriminate|].
       destruct (snd (orc 2%N 0%N)); inversion Hc; reflexivity. }
     subst p. eauto.
   - right. eauto.
+Qed.
+
+Lemma evaluate_topk_exclusive : forall fuel a sl root k budget clk orc,
+  has_exclusive sl a root = true ->
+  exists rs, evaluate_topk fuel a sl root k budget clk orc = TkErr rs.
+Proof.
+  intros fuel a sl root k budget clk orc Hx. unfold evaluate_topk.
+  destruct (k =? 0)%N; [eauto|]. destruct (has_negation a root); [eauto|]. rewrite Hx. eauto.
+Qed.
+
+Lemma decide_sound_gen : forall c p P, p == P -> decision_sound (threshold c) P (decide c p).
+Proof.
+  intros c p P Hp. unfold decide. destruct (qle (threshold c) p) eqn:E; simpl.
+  - apply qle_iff in E. lra.
+  - apply qle_false in E. lra.
 Qed.
 
 (* a budget that is gone from the first reading: nothing is certified, the result asks for exact evaluation *)
@@ -490,3 +512,25 @@ Proof.
   - unfold Prob_node, Prob. apply psum_ext. intros w. apply built_sem.
   - apply evaluate_sound; assumption.
 Qed.
+
+(* snapshots with exclusive groups: every result is sound for the possible-worlds probability ProbX_node *)
+Lemma evaluate_sound_groups : forall a sl root,
+  wf a = true -> snapshot_valid sl ->
+  forall kf fuel c clk orc,
+    result_sound (threshold c) (ProbX_node sl a root) (evaluate kf fuel c a sl root clk orc).
+Proof.
+  intros a sl root Hwf [Hv Hn] kf fuel c clk orc. destruct (seeds_valid_split sl Hv) as [Hnd Hok].
+  destruct (has_exclusive sl a root) eqn:Hx.
+  - (* a choice is mentioned: exact count of the compiled plan, or NeedsExact *)
+    assert (He : exact_probability sl a root == ProbX_node sl a root).
+    { unfold exact_probability. rewrite Qred_correct. apply plan_wmc_correct; assumption. }
+    destruct (evaluate_exclusive a sl root kf fuel c clk orc Hx) as [(d & m & E & Ed)|(rs & m & E)]; rewrite E; simpl.
+    + pose proof (ProbX_range sl Hok Hn (sem a root)) as [R0 R1]. fold (ProbX_node sl a root) in R0, R1.
+      assert (Hq : qclamp (exact_probability sl a root) 0 1 == ProbX_node sl a root) by (rewrite qclamp_id; lra).
+      split; [exact Hq|]. subst d. apply decide_sound_gen. exact Hq.
+    + split; intros; discriminate.
+  - apply (result_sound_Qeq _ (Prob_node sl a root)).
+    + apply Prob_node_ProbX; assumption.
+    + apply evaluate_sound; assumption.
+Qed.
+
